@@ -149,6 +149,12 @@ def conditional_level(draw, family, cond_idx, x0, x1, allow_chain=True, nontrivi
     dep_names = [n for n in names if n in dep_names]
     plausible = draw(fam.PLAUSIBLE[family]())
     fixed = {n: plausible[n] for n in names if n not in dep_names}
+    if family == "LogNormalNormFit" and len(fixed) == 1:
+        # one of (mean, standard deviation) fixed, the other dependent: keep the fixed one inside the range the
+        # dependent one is constructed for, so that the coefficient of variation stays within [0.03, 6] (PARAM_RANGE)
+        (n_fixed,) = fixed
+        lo_, hi_ = fam.PARAM_RANGE[family][n_fixed]
+        fixed[n_fixed] = float(min(max(fixed[n_fixed], lo_), hi_))
     dependent = {}
     for n in dep_names:
         dependent[n] = draw(dep_spec(family, n, x0, x1, nontrivial=nontrivial, saturating_only=saturating_only, poly_ok=poly_ok))
